@@ -53,7 +53,7 @@ Txt(x, paren) ==
     [] x.t = "fn" -> x.f \o "(" \o ArgsTxt(x.args, 1) \o ")"
 Source == IF e.t = "fn" THEN Txt(e, FALSE) ELSE "calc(" \o Txt(e, FALSE) \o ")"
 
-Class == IF MixedMinMax(e) THEN "open" ELSE IF MustReject(e) THEN "reject" ELSE IF MustFold(e) THEN "fold" ELSE "calc"
+Class == IF MixedMinMax(e) \/ InfiniteIntermediate(e) \/ InvertedClamp(e) THEN "open" ELSE IF MustReject(e) THEN "reject" ELSE IF MustFold(e) THEN "fold" ELSE "calc"
 FoldValue == LET v == EvalCalc(e, AnyEnv) IN [n |-> v.q[1], d |-> v.q[2], dim |-> v.dim]
 Emit == done => PrintT(<<"CASE", ToJson([src |-> Source, ast |-> e, class |-> Class,
                                          value |-> IF Class = "fold" THEN FoldValue ELSE [n |-> 0, d |-> 1, dim |-> None3]])>>)
